@@ -96,6 +96,16 @@ def replay_file(prop, path, tier="quick", quiet=False):
     mod = _mod(prop)
     with open(path) as f:
         doc = json.load(f)
+    if "sequence" in doc:
+        # a history of cases executed in ONE process: the verdict is that of the last case (state leaking between calls)
+        out = None
+        for case in doc["sequence"]:
+            out = mod.run_case(case, tier)
+        if out.get("status") == "violation":
+            out = dict(out, kind=str(out.get("kind")) + "[history-dependent]")
+        if not quiet:
+            _print(f"replay {path} (sequence of {len(doc['sequence'])} cases): {out['status']}" + (f" kind={out.get('kind')} detail={out.get('detail')}" if out["status"] == "violation" else ""))
+        return case, out
     case = doc["case"] if "case" in doc else doc
     out = mod.run_case(case, tier)
     if not quiet:
@@ -175,9 +185,11 @@ def run_check(prop, tier, seed):
     reasons = {}
     inc_samples = {}
     bucket_counts = {}
+    shard_cases = {}
     for i, outp, _ in procs:
         if not os.path.exists(outp):
             continue
+        shard_cases[i] = []
         with open(outp) as f:
             for line in f:
                 try:
@@ -187,6 +199,9 @@ def run_check(prop, tier, seed):
                 if "note" in r:
                     notes.append(r["note"])
                     continue
+                r["_shard"], r["_pos"] = i, len(shard_cases[i])
+                shard_cases[i].append(r.get("case", r.get("c")))
+                r.pop("c", None)
                 evaluations += 1
                 status_counts[r["st"]] = status_counts.get(r["st"], 0) + 1
                 for lb in r.get("labels", []):
@@ -209,7 +224,7 @@ def run_check(prop, tier, seed):
                         cur = buckets.get(b)
                         if cur is None or len(dumps(r["case"])) < len(dumps(cur["case"])):
                             buckets[b] = r
-    shutil.rmtree(work, ignore_errors=True)
+    seq_violations = 0
 
     # ---- 4. shrink new buckets, write replay files -------------------------------------------
     shrink_budget = 20 if tier == "quick" else 120
@@ -223,11 +238,21 @@ def run_check(prop, tier, seed):
         except Exception:
             small, out = case, {"status": "violation", "kind": r.get("kind"), "detail": r.get("detail"), "site": r.get("site"), "facts": r.get("facts")}
         if out.get("status") != "violation":
-            # not reproducible in the parent process => flaky oracle or state leak: a harness error, not a verdict
+            # Not reproducible from a clean state.  If the shard's HISTORY (the cases executed before it in the same process)
+            # reproduces it deterministically in a fresh process, the library leaks state between calls: that is a violation
+            # (the result for this input is wrong in that history).  Otherwise it is a harness problem, not a verdict.
+            seq = _history_repro(prop, shard_cases.get(r["_shard"], [])[: r["_pos"]] + [case], tier, work)
+            if seq is not None:
+                p_ = _write_seq_replay(prop, seq, r)
+                _print(f"  generated:{b}: kind={r.get('kind')}[history-dependent] (reproduces only after {len(seq) - 1} earlier call(s) in the same process) detail={str(r.get('detail'))[:240]}")
+                _print(f"VIOLATION property={prop} replay={p_}")
+                seq_violations += 1
+                continue
             harness_errors.append(f"bucket {b}: violation seen in a shard did not reproduce on replay; case={dumps(case)[:400]}")
             continue
         violations.append((small, out, f"generated:{b}"))
 
+    shutil.rmtree(work, ignore_errors=True)
     # ---- 5. evidence ------------------------------------------------------------------------
     wall = time.time() - t0
     if not samples:
@@ -261,7 +286,7 @@ def run_check(prop, tier, seed):
         "coverage": cov,
         "assumptions": list(getattr(mod, "ASSUMPTIONS", [])),
         "wall_s": round(wall, 2),
-        "violations": len(violations),
+        "violations": len(violations) + seq_violations,
     }
     _write_evidence(prop, ev)
 
@@ -274,7 +299,7 @@ def run_check(prop, tier, seed):
         f"[{prop}/{tier}] seed={seed} evaluations={cov['evaluations']} distinct_nontrivial={cov['distinct_nontrivial']} "
         f"status={status_counts} excluded_known={excluded_known} wall={wall:.1f}s"
     )
-    if violations:
+    if violations or seq_violations:
         for case, out, origin in violations:
             p = _write_replay(prop, case, out, note=origin)
             _print(f"  {origin}: kind={out.get('kind')} detail={str(out.get('detail'))[:300]}")
@@ -289,6 +314,56 @@ def run_check(prop, tier, seed):
     if any("did not reproduce" in h or "exit" in h for h in harness_errors):
         return 2
     return 0
+
+
+def _seq_fails(prop, seq, tier, work):
+    """Run the sequence in a fresh interpreter; True iff its last case violates."""
+    fn = os.path.join(work, "seq.json")
+    with open(fn, "w") as f:
+        f.write(dumps({"property": prop, "sequence": seq}))
+    pr = subprocess.run([sys.executable, "-m", "fpverif.cli", prop, "--tier", tier, "--replay", fn], capture_output=True, text=True, timeout=900)
+    return pr.returncode == 1 and "VIOLATION" in pr.stdout
+
+
+def _history_repro(prop, seq, tier, work, budget_s=240):
+    """Shortest-suffix search + one-by-one removal; returns a (reduced) sequence that reproduces in a fresh process, or None."""
+    t0 = time.time()
+    seq = [c for c in seq if c is not None]
+    if len(seq) < 2:
+        return None
+    try:
+        n = 2
+        found = None
+        while True:
+            suf = seq[-n:]
+            if _seq_fails(prop, suf, tier, work):
+                found = suf
+                break
+            if n >= len(seq) or time.time() - t0 > budget_s:
+                break
+            n = min(len(seq), n * 2)
+        if found is None:
+            return None
+        i = 0
+        while i < len(found) - 1 and time.time() - t0 < budget_s:
+            cand = found[:i] + found[i + 1 :]
+            if len(cand) >= 2 and _seq_fails(prop, cand, tier, work):
+                found = cand
+            else:
+                i += 1
+        return found
+    except Exception:
+        return None
+
+
+def _write_seq_replay(prop, seq, r):
+    d = os.path.join(VERIF_ROOT, "replays")
+    os.makedirs(d, exist_ok=True)
+    p = os.path.join(d, f"{prop}-seq-{case_hash(seq)}.json")
+    with open(p, "w") as f:
+        f.write(dumps({"property": prop, "sequence": seq, "observed": {k: r.get(k) for k in ("kind", "detail", "site")},
+                       "note": "history-dependent violation: the last case fails only after the earlier ones were executed in the same process"}, indent=1))
+    return p
 
 
 def _merge_notes(notes):
